@@ -195,7 +195,7 @@ def run(prop, tier):
             # non-trivial: a family member, an input of the C01/C02 model, an accepted input (the whole
             # pipeline ran), a crash, or a mutated seed document (rejected late); random alphabet
             # strings that are rejected do not count
-            if e["outcome"] != "err" or e["family"] != "garbage" or e.get("gen") in ("splice", "token", "seed"):
+            if e["outcome"] != "err" or e["family"] != "garbage" or e.get("gen") in ("splice", "token", "seed", "structured"):
                 out.nontriv([e["family"], e["n"], e["len"], e.get("text", [])[:64]])
         for e in all_events[:3]:
             out.sample({"family": e["family"], "n": e["n"], "len": e["len"], "outcome": e["outcome"],
@@ -217,7 +217,8 @@ def run(prop, tier):
             "entity cycles, doubling chain) run for every n <= N in the thorough tier and for ~10 values "
             "incl. N in the quick tier; linear families are sampled (Cost!Sample)",
             "garbage inputs: %d seeded (seed %d) strings <= ~600 code points: markup alphabet, char-level "
-            "splices and token-level mutations of 12 seed documents" % (n_garbage, C.seed()),
+            "splices and token-level mutations of 12 seed documents, structured documents with random entity "
+            "graphs (cycles, undeclared, external, unparsed, parameter entities), ATTLIST defaults and nesting" % (n_garbage, C.seed()),
             "events validated by TLC: %d of %d (all family events, all events that are not ok/err, and the "
             "first %d ok/err events per TLC run)" % (validated, total, TRACE_SLICE),
             "inputs of the C01/C02 model: %s" % ("included" if mc_ev else "not available in this run"),
